@@ -100,5 +100,161 @@ def iterfit (K : Kernels α) (r32 : α → α) (p : Params α) (xs ys ivs : List
   | none => pure (sset, List.replicate nx true)
   | some maskwork => pure (sset, unsort perm maskwork)  -- `outmask[xsort] = maskwork`
 
+/-! ## the full `iterfit` (second extension round; NEW definitions, the ones above are unchanged)
+
+`requiren=` (lines 676-690), `oldset=` (lines 623-626, as the code is after the fix: the mask of the reused object is
+reset to all-True and its coefficients to zeros; breakpoints and order are the old object's, the bspline keywords are
+not read, there is no 'No valid data points' test and no `< nord` early return) and the branch
+`maskwork.sum() <= 1 or not sset.mask.any()` (lines 672-674: `sset.coeff = 0` - the Python int -, `iiter = maxiter+1`, and
+then, as coded, one more `djs_reject` against the `yfit` of the previous pass when `error == 0`).  `groupbadpix` is handed
+to `djs_reject`, which reads it only under `if maxrej is not None:`; `iterfit` has no way to pass `maxrej` (`**kwargs` go
+to the `bspline` constructor, which refuses the keyword), so the call is `Reject.djsRejectFull` with `maxrej=None`. -/
+
+/-- `while xwork[i] < bk and i < nx-1: i += 1` -/
+def reqSkip (xw : Nat → α) (b : α) (nx : Nat) : Nat → Nat → Nat
+  | 0, i => i
+  | f+1, i => if xw i < b ∧ i < nx - 1 then reqSkip xw b nx f (i+1) else i
+
+/-- `while xwork[i] >= lo and xwork[i] < hi and i < nx-1: ct += invwork[i]*maskwork[i] > 0; i += 1`; `hi = none`: the
+subscript `goodbk[ileft+1]` is out of range (`nord = 1`, last interval) - evaluated, and raising, only when the first
+comparison holds (`and` short-circuits).  `none` = IndexError -/
+def reqCount (xw : Nat → α) (good : Nat → Bool) (lo : α) (hi : Option α) (nx : Nat) : Nat → Nat → Nat → Option (Nat × Nat)
+  | 0, i, ct => some (i, ct)
+  | f+1, i, ct =>
+    if lo ≤ xw i then
+      match hi with
+      | none => none
+      | some h => if xw i < h ∧ i < nx - 1 then reqCount xw good lo hi nx f (i+1) (ct + if good i then 1 else 0)
+                  else some (i, ct)
+    else some (i, ct)
+
+/-- the `requiren` block (lines 676-690): the new `sset.mask`.  `goodbk` and `sset.mask.sum()` are taken at the top of
+the pass / of the `for` statement and do not follow the changes made in the loop; `goodbk[nord]` on too short an array raises -/
+def requirenWalk (b : BS α) (xw iw : List α) (mw : List Bool) (requiren : Nat) : R (Array Bool) :=
+  let goodbk := goodIdx b.mask.toList
+  let ng := goodbk.length
+  let nx := xw.length
+  if b.nord = 0 then .error "Unmodelled" else
+  if ng ≤ b.nord then indexError else
+  let bk (j : Nat) : α := b.breakpoints[goodbk.getD j 0]!
+  let bkO (j : Nat) : Option α := if j < ng then some (bk j) else none
+  let xa := xw.toArray
+  let x (i : Nat) : α := xa[i]!
+  let ia := iw.toArray
+  let ma := mw.toArray
+  let good (i : Nat) : Bool := decide (0 < ia[i]! * Reject.castB ma[i]!)
+  let i0 := reqSkip x (bk b.nord) nx nx 0
+  let r := (List.range' b.nord (ng - b.nord + 1 - b.nord)).foldl
+    (fun (s : Option (Nat × Nat × Array Bool)) ileft =>
+      match s with
+      | none => none
+      | some (i, ct, m) =>
+        match reqCount x good (bk ileft) (bkO (ileft+1)) nx nx i ct with
+        | none => none
+        | some (i', ct') =>
+          if ct' ≥ requiren then some (i', 0, m) else some (i', ct', m.setIfInBounds (goodbk.getD ileft 0) false))
+    (some (i0, 0, b.mask))
+  match r with
+  | none => indexError
+  | some r => pure r.2.2
+
+/-- how `iterfit` calls `djs_reject`, all keywords: `groupbadpix=groupbadpix`, `maxrej` / `groupdim` / `groupsize` left None -/
+def rejectCall (sqrt : α → α) (p : Params α) (groupbadpix : Bool) (yw yfit : List α) (mask : List Bool) (iw : List α) :
+    R (List Bool × Bool) :=
+  Reject.djsRejectFull sqrt (rejectOpts p) { groupdim := none, groupsize := none, groupbadpix := groupbadpix } [yw.length]
+    yw (some yfit) (some mask) (some mask) iw
+
+/-- the options of the full call that are not in `Params` -/
+structure FullOpts (α : Type) where
+  requiren : Option Nat := none
+  oldset : Option (BS α) := none
+  groupbadpix : Bool := false
+
+/-- one pass of the `while` loop (lines 671-702), all branches; the Bool says that the pass took the branch
+`sset.coeff = 0` (the object then carries the Python int 0 as coefficients) -/
+def iterBodyFull (K : Kernels α) (p : Params α) (requiren : Option Nat) (gbp : Bool) (xw yw iw : List α) (s : St α) :
+    R (Outcome α × Bool) := do
+  if countTrue s.maskwork ≤ 1 ∨ !(s.sset.mask.any id) then
+    -- `sset.coeff = 0; iiter = maxiter + 1`, then `iiter += 1`; `error`, `yfit` are those of the previous pass
+    let st : St α := { s with iiter := p.maxiter + 2 }
+    if s.error = 0 then
+      let (m, q) ← rejectCall K.sqrt p gbp yw s.yfit s.maskwork iw
+      pure (.done { st with maskwork := m, qdone := q }, true)
+    else pure (.done st, true)
+  else
+    let sset' : BS α ← match requiren with
+      | none => pure s.sset
+      | some r => do
+        let m ← requirenWalk s.sset xw iw s.maskwork r
+        pure { s.sset with mask := m }
+    let out ← fit K sset' xw yw (maskedWeights iw s.maskwork) (List.range xw.length)
+    let st : St α := { s with sset := out.obj, yfit := out.yfit, error := out.status, iiter := s.iiter + 1 }
+    if out.status = -2 then pure (.failed out.obj, false)
+    else if out.status = 0 then
+      let (m, q) ← rejectCall K.sqrt p gbp yw out.yfit s.maskwork iw
+      pure (.done { st with maskwork := m, qdone := q }, false)
+    else pure (.done st, false)
+
+/-- `while (error != 0 or not qdone) and iiter <= maxiter:` (fuel `maxiter + 1`); the Bool: `sset.coeff` is the int 0 -/
+def iterLoopFull (K : Kernels α) (p : Params α) (requiren : Option Nat) (gbp : Bool) (xw yw iw : List α) :
+    Nat → St α → Bool → R (Outcome α × Bool)
+  | 0, s, cz => pure (.done s, cz)
+  | fuel+1, s, cz =>
+    if (s.error ≠ 0 ∨ s.qdone = false) ∧ s.iiter ≤ p.maxiter then do
+      match ← iterBodyFull K p requiren gbp xw yw iw s with
+      | (.failed b, z) => pure (.failed b, z)
+      | (.done s', z) => iterLoopFull K p requiren gbp xw yw iw fuel s' z
+    else pure (.done s, cz)
+
+/-- `sset = kwargs['oldset']` with mask and coefficients reset (after the fix: arrays of the object's shapes) -/
+def resetOld (b : BS α) : BS α :=
+  { b with mask := Array.replicate b.breakpoints.size true, coeff := Array.replicate (b.breakpoints.size - b.nord) 0 }
+
+/-- lines 623-642: the spline object the loop starts from, and whether `iterfit` returns at once
+('Number of good data points fewer than nord') -/
+def initSset (r32 : α → α) (p : Params α) (oldset : Option (BS α)) (xw : List α) (mask0 : List Bool) : R (BS α × Bool) :=
+  match oldset with
+  | some b => pure (resetOld b, false)
+  | none =>
+    if !(mask0.any id) then valueError else do          -- 'No valid data points.'
+    let goodx := ((xw.zip mask0).filter (fun xm => xm.2)).map (fun xm => xm.1)
+    let knots ← mkKnots r32 goodx p.nord p.opts
+    let sset : BS α := { nord := p.nord, breakpoints := knots.toArray, mask := Array.replicate knots.length true,
+                         coeff := Array.replicate (knots.length - p.nord) 0 }
+    pure (sset, decide (countTrue mask0 < p.nord))
+
+/-- everything the full `iterfit` does on the sorted work arrays: the object, whether its `coeff` is the int 0, and
+`some maskwork` / `none` where the code returns the initial all-True `outmask` -/
+def iterCoreFull (K : Kernels α) (r32 : α → α) (p : Params α) (o : FullOpts α) (xw yw iw : List α) :
+    R (BS α × Bool × Option (List Bool)) := do
+  let mask0 := iw.map (fun v => decide (0 < v))
+  let (sset, few) ← initSset r32 p o.oldset xw mask0
+  if few then pure (sset, false, none) else
+  let s0 : St α := { sset := sset, maskwork := mask0, yfit := List.replicate xw.length 0, error := 0, qdone := false, iiter := 0 }
+  match ← iterLoopFull K p o.requiren o.groupbadpix xw yw iw (p.maxiter + 1) s0 false with
+  | (.failed b, _) => pure (b, false, none)
+  | (.done s, cz) => pure (s.sset, cz, some s.maskwork)
+
+/-- what the full `iterfit` returns: the object, whether its `coeff` is the int 0, and `outmask` -/
+structure FullOut (α : Type) where
+  sset : BS α
+  cz : Bool
+  outmask : List Bool
+
+/-- `iterfit(xdata, ydata, invvar=, upper=, lower=, maxiter=, groupbadpix=, requiren=, oldset=, <bspline keywords>)` -/
+def iterfitFull (K : Kernels α) (r32 : α → α) (p : Params α) (o : FullOpts α) (xs ys ivs : List α) (perm : List Nat) :
+    R (FullOut α) := do
+  let nx := xs.length
+  if ys.length ≠ nx then valueError else
+  if ivs.length ≠ nx then valueError else
+  if nx ≤ 1 then .error "Unmodelled" else             -- `invvar.size == 1`: `outmask` is the scalar True
+  let xw := perm.map (fun i => xs.getD i 0)
+  let yw := perm.map (fun i => ys.getD i 0)
+  let iw := perm.map (fun i => ivs.getD i 0)
+  let (sset, cz, m) ← iterCoreFull K r32 p o xw yw iw
+  match m with
+  | none => pure ⟨sset, cz, List.replicate nx true⟩
+  | some maskwork => pure ⟨sset, cz, unsort perm maskwork⟩  -- `outmask[xsort] = maskwork`
+
 end generic
 end PydlVerif.IterFit
